@@ -72,11 +72,17 @@ func positionRules(p *core.Program, r *core.Report, rule string) {
 			}
 		}
 		if len(lf) >= 2 {
-			if lexT != nil {
-				r.Unk(rule, "lexer state type", "", "two candidate types")
-				return
+			// several structs may hold locations (a saved-position record beside the lexer): the
+			// state type is the one with the most of them, then the one with the most fields
+			better := lexT == nil || len(lf) > len(locFields)
+			if lexT != nil && len(lf) == len(locFields) {
+				if os, ok := lexT.Underlying().(*types.Struct); ok && st.NumFields() > os.NumFields() {
+					better = true
+				}
 			}
-			lexT, locFields = n, lf
+			if better {
+				lexT, locFields = n, lf
+			}
 		}
 	}
 	if lexT == nil {
@@ -244,6 +250,97 @@ func positionRules(p *core.Program, r *core.Report, rule string) {
 		return m
 	}
 
+	// snapshot records: a struct type of the package every literal of which is filled, field by
+	// field, from the lexer's position fields (offset, location and previous location among
+	// them) and whose fields are never assigned afterwards: record field -> lexer field
+	snapField := map[*types.Var]*types.Var{}
+	{
+		cand := map[*types.Named]map[*types.Var]*types.Var{}
+		bad := map[*types.Named]bool{}
+		for _, fd := range p.FuncDecls("parser/lexer") {
+			if fd.Body == nil {
+				continue
+			}
+			ast.Inspect(fd.Body, func(n ast.Node) bool {
+				switch x := n.(type) {
+				case *ast.CompositeLit:
+					nt, ok := info.TypeOf(x).(*types.Named)
+					if !ok || nt == lexT {
+						return true
+					}
+					st, ok := nt.Underlying().(*types.Struct)
+					if !ok || len(x.Elts) == 0 {
+						return true
+					}
+					m := map[*types.Var]*types.Var{}
+					got := map[*types.Var]bool{}
+					for _, el := range x.Elts {
+						kv, ok := el.(*ast.KeyValueExpr)
+						if !ok {
+							return true
+						}
+						src := fieldOf(kv.Value)
+						if src == nil {
+							return true // not a snapshot literal; other structs are not our business
+						}
+						for i := 0; i < st.NumFields(); i++ {
+							if st.Field(i).Name() == eng.ExprStr(kv.Key) {
+								m[st.Field(i)] = src
+								got[src] = true
+							}
+						}
+					}
+					if got[endF] && got[locF] && got[prevF] {
+						if old, seen := cand[nt]; seen {
+							for k, v := range m {
+								if old[k] != v {
+									bad[nt] = true
+								}
+							}
+						}
+						cand[nt] = m
+					}
+				case *ast.AssignStmt:
+					for _, l := range x.Lhs {
+						if sel, ok := eng.Unparen(l).(*ast.SelectorExpr); ok {
+							if sl := info.Selections[sel]; sl != nil && sl.Kind() == types.FieldVal {
+								t := sl.Recv()
+								if pt, ok := t.(*types.Pointer); ok {
+									t = pt.Elem()
+								}
+								if nt, ok := t.(*types.Named); ok && nt != lexT {
+									bad[nt] = true // a field of the record is written after construction
+								}
+							}
+						}
+					}
+				}
+				return true
+			})
+		}
+		for nt, m := range cand {
+			if !bad[nt] {
+				for k, v := range m {
+					snapField[k] = v
+				}
+			}
+		}
+	}
+	recordField := func(e ast.Expr) (*types.Var, string) {
+		sel, ok := eng.Unparen(e).(*ast.SelectorExpr)
+		if !ok {
+			return nil, ""
+		}
+		sl := info.Selections[sel]
+		if sl == nil || sl.Kind() != types.FieldVal {
+			return nil, ""
+		}
+		if f, ok := sl.Obj().(*types.Var); ok && snapField[f] != nil {
+			return snapField[f], eng.ExprStr(sel.X)
+		}
+		return nil, ""
+	}
+
 	nWrites := 0
 	for _, fd := range p.FuncDecls("parser/lexer") {
 		if fd.Body == nil {
@@ -279,13 +376,23 @@ func positionRules(p *core.Program, r *core.Report, rule string) {
 				return false
 			}
 			got := map[*types.Var]bool{}
+			base := ""
 			for i, l := range as.Lhs {
 				f := fieldOf(l)
-				id, ok := eng.Unparen(as.Rhs[i]).(*ast.Ident)
-				if f == nil || !ok || snap[objOf(info, id)] != f {
+				if f == nil {
 					return false
 				}
-				got[f] = true
+				if id, ok := eng.Unparen(as.Rhs[i]).(*ast.Ident); ok && snap[objOf(info, id)] == f {
+					got[f] = true
+					continue
+				}
+				// … or from the matching field of one snapshot record
+				if src, b := recordField(as.Rhs[i]); src == f && (base == "" || base == b) {
+					base = b
+					got[f] = true
+					continue
+				}
+				return false
 			}
 			return got[endF] && got[locF] && got[prevF]
 		}
@@ -438,7 +545,7 @@ func positionRules(p *core.Program, r *core.Report, rule string) {
 			})
 		}
 	}
-	r.Floor(rule, 20)
+	r.Floor(rule, 14) // 20 writes today; folding repeated position updates into the existing helper lowers the count
 }
 
 // sourceUnmodifiedRule: positions are positions in the text the caller passed. On the way
